@@ -121,6 +121,10 @@ def scenarios(draw, kinds=None, max_callers=4, limits=(1, 1, 2, 2, 3)):
     if draw(st.integers(0, 2)) == 0:
         sc["cancel"] = {"caller": draw(st.integers(0, n_callers - 1)), "style": draw(st.sampled_from(["task", "scope", "scope"])),
                         "at": draw(st.integers(1, 60))}
+        if draw(st.integers(0, 2)) == 0:
+            # cancelled at the moment another task hands this caller's queued request a connection (wake-up issued, the caller has not run yet)
+            del sc["cancel"]["at"]
+            sc["cancel"]["on_assign"] = draw(st.sampled_from([1, 1, 1, 2]))
         if sc["runtime"] == "trio":
             sc["cancel"]["style"] = "scope"  # trio has no one-shot task cancellation
     return sc
@@ -152,7 +156,7 @@ def build(sc):
             prog.append({"spec": spec, "tok": step["tok"], "mode": m, "method": step["method"]})
         cancel = None
         if sc.get("cancel") and sc["cancel"]["caller"] == ci:
-            cancel = {"style": sc["cancel"]["style"], "at": sc["cancel"]["at"]}
+            cancel = {k: v for k, v in sc["cancel"].items() if k in ("style", "at", "on_assign")}
         callers.append(Caller(ci, prog, cancel=cancel))
     return world, pool_cfg, cfg, callers, scheme
 
